@@ -93,6 +93,8 @@ def run(ctx):
         ctx.hist("stat_" + k, v)
     if done >= 200 and (stats.get("roundtrips", 0) < done * 0.3):
         raise common.InfraError("degenerate distribution: %r of %d round trips" % (stats, done))
+    if done >= 200 and stats.get("sh_compared", 0) < stats.get("ok", 0) * 0.5:
+        raise common.InfraError("command lists compared string by string on too few requests: %r" % (stats,))
     bad = ctx.histogram.get("outcome=notfound", 0) + ctx.histogram.get("outcome=raised", 0)
     if done >= 200 and bad < 30:
         raise common.InfraError("degenerate distribution: only %d failing requests" % bad)
